@@ -22,7 +22,8 @@ EXTENDS Integers, Sequences, FiniteSets, TLC
 
 \* ---- abstract characters ------------------------------------------------------------------
 Chars == {"a", "A", "b", "B", "e2", "E2", "c3", "g4", "sp", "tab", "dot", "star", "comma", "eq",
-          "1", "2", "3", "4", "5", "6", "7", "8", "9"}
+          "1", "2", "3", "4", "5", "6", "7", "8", "9",
+          "bel", "bs", "ff", "lf", "cr", "vt", "bsl", "dq"}          \* (control characters, backslash, double quote: literals only)
 Width(c) == CASE c \in {"e2", "E2"} -> 2 [] c = "c3" -> 3 [] c = "g4" -> 4 [] OTHER -> 1
 IsSpace(c) == c \in {"sp", "tab"}
 \* Case partners.  "Convert string to uppercase" is definite for ASCII letters.  e2/E2 stands for a non-ASCII pair
@@ -158,6 +159,14 @@ SplitKV(s, ps, fs) == LET f == Split(s, fs)
                           kv == [k \in 1..Len(f) |-> Split(f[k], ps)]
                       IN RMap([k \in 1..Len(f) |-> kv[k][1]], [k \in 1..Len(f) |-> kv[k][2]])
 
+\* ---- string literals of the DSL ----------------------------------------------------------------------
+\* reference-main-strings.md, "Escape sequences for string literals": the named escapes and the character each denotes;
+\* "\123: Octal 123, etc. for \000 up to \377", "\x7f: Hexadecimal 7f, etc.", "\u2766, \U00010877: Unicode literals ...
+\* four hex digits after \u and eight hex digits after \U".  A literal without escapes denotes its characters.
+Named == [bel |-> "\\a", bs |-> "\\b", ff |-> "\\f", lf |-> "\\n", cr |-> "\\r", tab |-> "\\t", vt |-> "\\v",
+          bsl |-> "\\\\", dq |-> "\\\""]
+EscapeKinds == {"named", "octal", "hex", "u4", "U8"}
+
 (***************************************************************************)
 (* Cases: [f, s, t, u, i, j, a, ks]                                          *)
 (*   f function; s, t, u string arguments; i, j integer arguments;          *)
@@ -197,6 +206,11 @@ Allowed(c, r) ==
     [] c.f = "join_split"  -> r = RStr(c.s)                               \* joinv(splitax(s, t), t)
     [] c.f = "split_join"  -> SplitArrOK(Join(c.a, c.t), c.t, r)          \* splitax(joinv(a, t), t)
     [] c.f = "splitkvx_joinkv" -> r = SplitKV(Join(Pairs(c.a, c.ks, c.t), c.u), c.t, c.u)   \* splitkvx(joinkv(m, t, u), t, u)
+    \* a string literal "..." of the characters s evaluates to s
+    [] c.f = "literal"     -> r = RStr(c.s)
+    \* an escape sequence of kind t (for "named": spelled u[1]) denoting the character s[1], compared by == with that
+    \* character read from data
+    [] c.f = "escape"      -> c.t[1] \in EscapeKinds /\ r = RBool(TRUE)
     [] OTHER -> FALSE
 
 \* One admitted result per case (the trimmed / leftmost / ASCII-only reading): shows that Allowed is satisfiable
@@ -236,4 +250,6 @@ Witness(c) ==
     [] c.f = "join_split"  -> RStr(c.s)
     [] c.f = "split_join"  -> IF Join(c.a, c.t) = <<>> THEN RArr(<<>>) ELSE RArr(Split(Join(c.a, c.t), c.t))
     [] c.f = "splitkvx_joinkv" -> SplitKV(Join(Pairs(c.a, c.ks, c.t), c.u), c.t, c.u)
+    [] c.f = "literal"     -> RStr(c.s)
+    [] c.f = "escape"      -> RBool(TRUE)
 =============================================================================
